@@ -64,7 +64,7 @@ def gen_case(rng, supervised, high_dim=0, small_prior=False):
   max_iter = int(rng.integers(1, 4)) if mode == 'few' else 2000
   wkind = str(rng.choice(['none', 'array', 'list']))
   if high_dim:
-    mode, tol, max_iter, wkind, supervised = 'high_dim', 1e-3, 25, 'none', False
+    mode, tol, max_iter, wkind, supervised = 'high_dim', 1e-2, 40, 'none', False
   if small_prior:
     mode, tol, max_iter, wkind = 'run', 1e-3, 2000, 'none'
   if supervised:
@@ -220,6 +220,9 @@ def run(ctx):
   for i in range(16 if ctx.quick else 576):
     rs.append(dict(supervised=bool(i % 4 == 3), n=5 if ctx.quick else 10, seed=int(rng.integers(1 << 30))))
   rs.append(dict(supervised=False, small_prior=True, n=3, seed=int(rng.integers(1 << 30))))          # (open finding D29, directed)
+  # MANY features (110) with the well-conditioned prior 2^-10 I: det(prior) = 2^-1100 is far below the smallest double
+  for _ in range(1 if ctx.quick else 4):
+    rs.append(dict(supervised=False, high_dim=110, n=1, seed=int(rng.integers(1 << 30))))
   ctx.rule = ('random quadruplet sets x priors {identity, covariance, random, SPD array} x weights {None, array, list} x tol in '
               '{1e-3, 1e-5} x {run to the stopping rule, 1-3 iterations, all constraints satisfied under any metric}; LSML and '
               'LSML_Supervised; distinct by event content; non-trivial = at least one violated constraint at the result')
